@@ -365,6 +365,7 @@ class RefWorld:
                     partner_b[id(b)] = key[0]
             if a is not None and b is not None and (a.kind != b.kind):
                 raise Expected("value")
+            # (after the look-up of the pair: an array that was already extended under another name is not padded again)
             if kind == "time" and (a is None or b is None):
                 x = a if a is not None else b
                 if (n if a is None else m) > 0 and x.tag.split("/")[-1] in ("gps_ws", "gps_seconds"):
